@@ -1,6 +1,7 @@
 import RdpModel.Wire.Emit
 import RdpModel.Spec.Strict
 import RdpModel.Props.C18
+import RdpModel.Lemmas.ConfirmActive
 /-
   C04 — every PDU the client emits is well formed under a strict independent parser.
   `Spec.Strict` is the parser (run by the driver on the implementation's bytes); the
@@ -503,5 +504,108 @@ theorem c04_infoFrame_strict (uid : Nat) (m : Mode) (ext : Bool) (d u p : List C
   rw [if_pos (by simp)]
   simp only
   exact hinfo _
+
+end Rdp.Emit
+
+namespace Rdp.Emit
+open Rdp Rdp.Spec Rdp.Spec.Strict Rdp.Global
+
+/-! ### the strict decoder accepts the Confirm Active PDU for every configuration -/
+
+theorem capSets_step (n ty : Nat) (b rest : Bytes) (hty : ty < 65536) (hb : b.length + 4 < 65536)
+    (hsz : ∀ ls, capSizes.lookup ty = some ls → (b.length + 4) ∈ ls) :
+    capSets (n + 1) (capWire ty b ++ rest) = capSets n rest := by
+  have e : capWire ty b ++ rest = le16 ty ++ (le16 (b.length + 4) ++ (b ++ rest)) := by
+    simp [capWire, Global.le16, le16, List.append_assoc]
+  rw [e]
+  conv => lhs; unfold capSets
+  simp only [bind, Except.bind]
+  rw [u16_le16 ty _ _ hty]
+  simp only
+  rw [u16_le16 (b.length + 4) _ _ hb]
+  simp only [need, show b.length + 4 ≥ 4 by omega, Nat.add_sub_cancel]
+  rw [takeN_len b.length b rest _ rfl]
+  simp only
+  cases hl : capSizes.lookup ty with
+  | none => simp
+  | some ls => simp [hsz ls hl]
+
+/-- **Confirm Active is well formed** for every screen size, keyboard layout, client name,
+    share id and user id: the strict decoder accepts the share-control PDU the model of
+    `write_confirm_active_pdu` produces — total length, source = the MCS user, originator 0x03EA,
+    source-descriptor and combined-capabilities lengths equal to what they describe, twelve
+    capability sets each with the length of its kind. -/
+theorem c04_confirmActive_strict (c : GClient) (hn : c.name.length < 60000) (hu : c.userId < 65536)
+    (hs : c.shareId.getD 0 < 4294967296) :
+    ∃ b, confirmActiveBytes c = .ok b ∧ Strict.shareControl c.userId b = .ok () := by
+  obtain ⟨b3, b4, b5, b6, b8, b9, b10, b11, b12, l3, l4, l5, l6, l8, l9, l10, l11, l12, hb⟩ :=
+    confirmActiveBytes_eq c hn
+  refine ⟨_, hb, ?_⟩
+  have lg := genBytes_length
+  have lb := bmpBytes_length c.width c.height
+  have li := inpBytes_length c.layout
+  have hcw : (capsWire c b3 b4 b5 b6 b8 b9 b10 b11 b12).length = 376 := by
+    simp only [capsWire, capWire, List.flatten_cons, List.flatten_nil, List.length_append, List.length_nil,
+      Global.le16_length, lg, lb, li, l3, l4, l5, l6, l8, l9, l10, l11, l12]
+  have hbody : (caBody c b3 b4 b5 b6 b8 b9 b10 b11 b12).length = c.name.length + 390 := by
+    simp only [caBody, List.length_append, Global.le16_length, Global.le32_length, hcw]; omega
+  -- share control header
+  have e1 : Global.le16 (c.name.length + 396) ++ Global.le16 0x13 ++ Global.le16 c.userId ++ caBody c b3 b4 b5 b6 b8 b9 b10 b11 b12
+      = le16 (c.name.length + 396) ++ (le16 0x13 ++ (le16 c.userId ++ caBody c b3 b4 b5 b6 b8 b9 b10 b11 b12)) := by
+    simp [Global.le16, le16, List.append_assoc]
+  have htot : (le16 (c.name.length + 396) ++ (le16 0x13 ++ (le16 c.userId ++ caBody c b3 b4 b5 b6 b8 b9 b10 b11 b12))).length
+      = c.name.length + 396 := by simp [hbody]; omega
+  rw [e1]
+  unfold Strict.shareControl
+  simp only [bind, Except.bind]
+  rw [u16_le16 _ _ _ (by omega)]
+  simp only [need, htot, if_true]
+  rw [u16_le16 0x13 _ _ (by decide)]
+  simp only
+  rw [u16_le16 c.userId _ _ hu]
+  simp only [if_true]
+  -- the confirm-active body
+  have e2 : caBody c b3 b4 b5 b6 b8 b9 b10 b11 b12 =
+      le32 (c.shareId.getD 0) ++ (le16 0x03EA ++ (le16 c.name.length ++ (le16 380 ++ (c.name ++ (le16 12 ++ (le16 0 ++
+        capsWire c b3 b4 b5 b6 b8 b9 b10 b11 b12)))))) := by
+    simp [caBody, Global.le16, Global.le32, le16, le32, List.append_assoc]
+  rw [e2]
+  unfold Strict.confirmActive
+  simp only [bind, Except.bind]
+  rw [u32_le32 _ _ _ hs]
+  simp only
+  rw [u16_le16 0x03EA _ _ (by decide)]
+  simp only [need, if_true]
+  rw [u16_le16 c.name.length _ _ (by omega)]
+  simp only
+  rw [u16_le16 380 _ _ (by decide)]
+  simp only
+  rw [takeN_len c.name.length c.name _ _ rfl]
+  simp only
+  have hr : (le16 12 ++ (le16 0 ++ capsWire c b3 b4 b5 b6 b8 b9 b10 b11 b12)).length = 380 := by simp [hcw]
+  simp only [hr, if_true]
+  rw [u16_le16 12 _ _ (by decide)]
+  simp only
+  rw [u16_le16 0 _ _ (by decide)]
+  simp only
+  -- twelve capability sets
+  have hsz : ∀ (ty L : Nat) ls, capSizes.lookup ty = some ls → L ∈ ls →
+      ∀ ls', capSizes.lookup ty = some ls' → L ∈ ls' := by
+    intro ty L ls h1 h2 ls' h3; rw [h1] at h3; injection h3 with h3; rw [← h3]; exact h2
+  unfold capsWire
+  simp only [List.flatten_cons, List.flatten_nil]
+  rw [capSets_step 11 1 genBytes _ (by decide) (by rw [lg]; decide) (hsz 1 _ [24] (by decide) (by rw [lg]; decide))]
+  rw [capSets_step 10 2 _ _ (by decide) (by rw [lb]; decide) (hsz 2 _ [28, 30] (by decide) (by rw [lb]; decide))]
+  rw [capSets_step 9 3 b3 _ (by decide) (by rw [l3]; decide) (hsz 3 _ [88] (by decide) (by rw [l3]; decide))]
+  rw [capSets_step 8 4 b4 _ (by decide) (by rw [l4]; decide) (hsz 4 _ [40] (by decide) (by rw [l4]; decide))]
+  rw [capSets_step 7 8 b5 _ (by decide) (by rw [l5]; decide) (hsz 8 _ [8, 10] (by decide) (by rw [l5]; decide))]
+  rw [capSets_step 6 0xC b6 _ (by decide) (by rw [l6]; decide) (hsz 0xC _ [8] (by decide) (by rw [l6]; decide))]
+  rw [capSets_step 5 0xD _ _ (by decide) (by rw [li]; decide) (hsz 0xD _ [88] (by decide) (by rw [li]; decide))]
+  rw [capSets_step 4 0xF b8 _ (by decide) (by rw [l8]; decide) (hsz 0xF _ [8] (by decide) (by rw [l8]; decide))]
+  rw [capSets_step 3 0x10 b9 _ (by decide) (by rw [l9]; decide) (hsz 0x10 _ [52] (by decide) (by rw [l9]; decide))]
+  rw [capSets_step 2 0x11 b10 _ (by decide) (by rw [l10]; decide) (hsz 0x11 _ [12] (by decide) (by rw [l10]; decide))]
+  rw [capSets_step 1 0x14 b11 _ (by decide) (by rw [l11]; decide) (hsz 0x14 _ [8, 12] (by decide) (by rw [l11]; decide))]
+  rw [capSets_step 0 0x1A b12 _ (by decide) (by rw [l12]; decide) (hsz 0x1A _ [8] (by decide) (by rw [l12]; decide))]
+  simp [capSets, need]
 
 end Rdp.Emit
